@@ -171,8 +171,8 @@ type hdEnv struct {
 	x     *sess
 	sizes []int
 	bins  [][]binSpec
-	vals [][]any // fq binaries, same indexing as bins
-	out  bytes.Buffer
+	vals  [][]any // fq binaries, same indexing as bins
+	out   bytes.Buffer
 }
 
 func newHDEnv(r *core.Run, x *sess, sizes []int, binsOf func(n int) []binSpec) *hdEnv {
